@@ -365,7 +365,7 @@ pub fn cmd_c08(tier: &str, out: &str) {
     }
     // very long noise (2^16 - 1, 2^16, beyond): the reported noise length must stay exact and the frame must follow
     {
-        let lens: &[usize] = if tier == "thorough" { &[65535, 65536, 65537, 70001, 131071, 131072, 262145] } else { &[65535, 65536, 70001] };
+        let lens: &[usize] = if tier == "thorough" { &[65535, 65536, 65537, 70001, 98304, 131071, 131072] } else { &[65535, 65536, 70001] };
         let hists: Vec<Vec<u32>> = vec![vec![], frame(&[0x55]).iter().map(|b| *b as u32).collect()];
         for &l in lens {
             for kind in 0..2 {
